@@ -204,6 +204,8 @@ def _worker(job):
             ex.hooks[FP + '.vAssertSetValue'] = gl.h_assert_set
             ex.hooks[FP + '.vAssertRoundedInt'] = gl.h_assert_roundint
             ex.hooks[FP + '.vAssertHalfwayFits'] = gl.h_assert_halfway
+            ex.hooks[FP + '.vAssertScanExpo'] = gl.h_assert_scan_expo
+            ex.hooks[FP + '.vAssertSetExpo'] = gl.h_assert_set_expo
         if job.opts.get('bv_only'):
             ex.solver.use_lia = False
         if job.opts.get('absdec'):
